@@ -287,9 +287,12 @@ impl Sx {
     }
 
     /// Like `from_node`, but gives up (None) once more than `max_nodes` nodes
-    /// were produced: allocator DAGs can unfold exponentially.
+    /// were produced: allocator DAGs can unfold exponentially. With a finite node cap the copied
+    /// atom bytes are capped as well (128 MiB): one shared 256 MB atom unfolds into gigabytes.
     pub fn from_node_capped(a: &Allocator, n: NodePtr, max_nodes: usize) -> Option<Sx> {
         let mut produced = 0usize;
+        let mut bytes = 0usize;
+        let max_bytes = if max_nodes == usize::MAX { usize::MAX } else { 128 << 20 };
         enum Op {
             Visit(NodePtr),
             Cons,
@@ -303,7 +306,14 @@ impl Sx {
             }
             match op {
                 Op::Visit(n) => match a.sexp(n) {
-                    SExp::Atom => vals.push(Sx::atom(a.atom(n).as_ref())),
+                    SExp::Atom => {
+                        let at = a.atom(n);
+                        bytes = bytes.saturating_add(at.as_ref().len());
+                        if bytes > max_bytes {
+                            return None;
+                        }
+                        vals.push(Sx::atom(at.as_ref()));
+                    }
                     SExp::Pair(l, r) => {
                         ops.push(Op::Cons);
                         ops.push(Op::Visit(r));
